@@ -308,6 +308,9 @@ class SimplicialComplex(Hypergraph):
         except TypeError:
             raise XGIError("The simplex cannot be cast to a frozenset.")
 
+        if None in members:
+            raise XGIError("None cannot be a node or edge")
+
         if not members or self.has_simplex(members):
             return
 
@@ -478,6 +481,9 @@ class SimplicialComplex(Hypergraph):
         if isinstance(ebunch_to_add, dict):
             faces = []  # container to store subfaces
             for idx, members in ebunch_to_add.items():
+                if None in members:
+                    raise XGIError("None cannot be a node or edge")
+
                 # check that it does not exist yet (based on members, not ID)
                 if not members or self.has_simplex(members):
                     continue
@@ -567,6 +573,9 @@ class SimplicialComplex(Hypergraph):
                 _ = iter(members)
             except TypeError as e:
                 raise XGIError("Invalid ebunch format") from e
+
+            if None in members:
+                raise XGIError("None cannot be a node or edge")
 
             # check that it does not exist yet (based on members, not ID)
             if not members or self.has_simplex(members):
